@@ -26,7 +26,7 @@ BUDGET = {'quick': 25, 'thorough': 300}
 BLOCK = 10
 STREAM_ORDER = ['scen', 'chart', 'cfg']
 RULE = ('a generated probe chart and a generated feature file (3-6 scenarios per execute_bdd call): each scenario is a history of predefined '
-        'given/when steps - send event (plain, inline parameter, parameter table), wait, do nothing, repeat "...", reproduce "..." - followed by '
+        'given/when steps - send event (plain, inline parameter, parameter table), wait, do nothing, repeat "...", reproduce "..." -, a given-step now and then among the when-steps of a block, followed by '
         'assertions known to be true and one assertion under test drawn true or false alike from every predefined then-step in the documented '
         'spelling. The feature is run in-process through execute_bdd with behave JSON formatter; every scenario is evaluated independently on a '
         'plain Interpreter (queue / advance / execute() per primitive step; the monitored block is the macro steps of the when-steps since the '
@@ -301,15 +301,21 @@ def run(ch, tier):
             nblocks = st.int(1, 2)
             for b in range(nblocks):
                 firstw = True
+                cur = None
                 for _ in range(st.int(1, 5 if cfg.force_history else 3)):
+                    # a given-step may sit among the when-steps of a block: what it executes is not part of the monitored block
+                    stype = 'when' if firstw or not st.flag(1, 5) else 'given'
                     tl, prims, k = gen_action(st, sp, events, set(library), live=live_events(sp, plain))
-                    lines.append('    %s %s' % ('When' if firstw else 'And', tl[0]))
+                    lines.append('    %s %s' % ('And' if cur == stype else 'When' if stype == 'when' else 'Given', tl[0]))
                     lines.extend('    ' + x for x in tl[1:])
                     firstw = False
-                    plain.act(prims, 'when', library)
+                    cur = stype
+                    plain.act(prims, stype, library)
                     mine.append(prims)
-                    steps.append(('when', tl[0], 'passed'))
+                    steps.append((stype, tl[0], 'passed'))
                     used_kinds.append(k)
+                    if stype == 'given':
+                        res.stats['given_steps_inside_a_block_of_when_steps'] += 1
                 plain.then()
                 firstt = True
                 last_block = b == nblocks - 1
